@@ -97,6 +97,44 @@ def inputs(rng, tier):
                 for d in (B if tier != "quick" else [0, 65536, 131071]):
                     for p in (0, 1):
                         add("bnd", (p, a, b), (1 - p, c, d))
+    # rounding ties of the two zone-index computations floor(x + 1/2): 59*YZ0 - 60*YZ1 and XZ0*(NL-1) - XZ1*NL equal to an
+    # odd multiple of 2^16, positive and negative, and their neighbours
+    def solve(ca, cb, t):
+        """a, b in 0..2^17-1 with ca*a - cb*b = t (ca, cb coprime), a few solutions"""
+        sols = []
+        for a in range(0, P17):
+            if (ca * a - t) % cb == 0:
+                b_ = (ca * a - t) // cb
+                step = cb
+                while a < P17 and len(sols) < 6:
+                    if 0 <= b_ < P17:
+                        sols.append((a, b_))
+                    a += step * rng.randrange(1, 300)
+                    b_ = (ca * a - t) // cb if (ca * a - t) % cb == 0 else -1
+                break
+        return sols
+    ties = 0
+    for k in list(range(-8, 8)) + [rng.randrange(-59, 59) for _ in range(q(6, 60))]:
+        t = (2 * k + 1) * 65536
+        for (a, b_) in solve(59, 60, t):
+            for da, db in ((0, 0), (1, 0), (0, 1), (-1, 0)):
+                a2, b2 = (a + da) % P17, (b_ + db) % P17
+                x = rng.randrange(P17)
+                add("tie", (0, a2, x), (1, b2, x))
+                add("tie", (1, b2, x), (0, a2, x))
+                ties += 1
+    for nl in [59, 58, 40, 20, 9, 3, 2] + [rng.randrange(2, 60) for _ in range(q(4, 40))]:
+        # a latitude with that many zones, identical in both reports; longitudes on a tie of m
+        lat = 0.0 if nl == 59 else (transition_lat(nl + 1) + transition_lat(nl)) / 2 if nl > 1 else 88.0
+        if nl_closed(lat) != nl:
+            continue
+        e0, o0 = encode(lat, 0.0, 0), encode(lat, 0.0, 1)
+        for k in list(range(-4, 4)):
+            t = (2 * k + 1) * 65536
+            for (a, b_) in solve(nl - 1, nl, t) if nl > 1 else []:
+                for da in (0, 1, -1):
+                    add("tie", (0, e0[0], (a + da) % P17), (1, o0[0], b_))
+                    add("tie", (1, o0[0], b_), (0, e0[0], (a + da) % P17))
     # known witness of the missing consistency checks (raw pair decoding to latitude 269.96)
     add("raw", (0, 131070, 0), (1, 31823, 0))
     add("raw", (1, 31823, 0), (0, 131070, 0))
